@@ -14,3 +14,6 @@ import SquidModel.Properties.C30
 #print axioms SquidModel.C30.atoi_port_counterexample_wrap
 #print axioms SquidModel.C30.atoi_port_counterexample_garbage
 #print axioms SquidModel.C30.atoi_port_counterexample_sign
+#print axioms SquidModel.C30.reparse_canonical_partial
+#print axioms SquidModel.C30.query_encoded_counterexample
+#print axioms SquidModel.C30.bracket_stripped_counterexample
